@@ -132,7 +132,7 @@ func c17prop(r *simkit.Run) {
 				what, got, now(), time.Duration(n-1)*res, lo, time.Duration(n)*res, hi, n, res, epoch)
 		}
 	}
-	nops := rapid.IntRange(3, 120).Draw(rt, "ops")
+	nops := rapid.IntRange(3, deep(120, 600)).Draw(rt, "ops")
 	for i := 0; i < nops; i++ {
 		switch rapid.SampledFrom([]string{"inc", "inc", "inc", "read", "read", "step", "step", "reset", "clone"}).Draw(rt, "op") {
 		case "inc":
